@@ -421,18 +421,19 @@ theorem ckksShiftNorm_Facts (n : Nat) : Facts (treeCkksShiftNorm n) (tbCkksShift
 theorem ckksShift_Facts (n : Nat) : Facts (treeCkksShift n) (tbCkksShift n) := glweLsh_Facts n
 
 theorem ckksMul_facts (be : BE) (n off ea eb : Nat) (ct : G) (t : K) (hn : n % 8 = 0)
-    (hea : ea ≤ ct.size) (heb : eb ≤ ct.size) (hb : 0 < ct.b2k) (hoff : cnvHi off ct.b2k ≤ ea + eb) :
+    (hea : ea ≤ ct.size) (heb : eb ≤ ct.size) (hb : 0 < ct.b2k) (hoff : cnvHi off ct.b2k ≤ ea + eb)
+    (hpw : PairwiseCovered be n ct.size (limbBoundWorst (ct.size + ct.size) ct.size ct.b2k ct.b2k) (min ct.size ct.size) ct.size ct.size) :
     Facts (treeCkksMul be n off ea eb ct t) (tbCkksMul be n ct t) := by
   unfold treeCkksMul tbCkksMul tensorBytes
   have hr : Facts _ _ := relinearize_facts be n t.size ct t hn (Nat.le_refl _)
-  exact Facts.take _ (vec_mod64 hn _ _) ((tensorApply_facts be n off ct ct ct.size ea eb hn hea heb hb hoff).alt hr)
+  exact Facts.take _ (vec_mod64 hn _ _) ((tensorApply_facts be n off ct ct ct.size ea eb hn hea heb hb hoff hpw).alt hr)
 
 theorem ckksSquare_facts (be : BE) (n off ea : Nat) (ct : G) (t : K) (hn : n % 8 = 0) (hea : ea ≤ ct.size) (hb : 0 < ct.b2k)
-    (hoff : cnvHi off ct.b2k ≤ 2 * ea) :
+    (hoff : cnvHi off ct.b2k ≤ 2 * ea) (hpws : PairwiseCovered be n 0 (limbBoundWorst (2 * ct.size) ct.size ct.b2k ct.b2k) ct.size ct.size ct.size) :
     Facts (treeCkksSquare be n off ea ct t) (tbCkksSquare be n ct t) := by
   unfold treeCkksSquare tbCkksSquare tensorBytes
   have hr : Facts _ _ := relinearize_facts be n t.size ct t hn (Nat.le_refl _)
-  exact Facts.take _ (vec_mod64 hn _ _) ((tensorSquare_facts be n off ct ct ea hn hea hb hoff).alt hr)
+  exact Facts.take _ (vec_mod64 hn _ _) ((tensorSquare_facts be n off ct ct ea hn hea hb hoff hpws).alt hr)
 
 theorem ckksMulPtVecRnx_facts (be : BE) (n off : Nat) (res a : G) (ptSize ea : Nat) (hn : n % 8 = 0) (hea : ea ≤ a.size)
     (hoff : cnvHi off a.b2k ≤ ea + ptSize) :
@@ -453,10 +454,11 @@ theorem ckksComposite_facts {n : Nat} (res : G) {tx : AllocTree} {x : Nat} (hn :
   exact Facts.take _ (gbytes_mod64 hn res) (h.alt (ckksShiftNorm_Facts n))
 
 theorem ckksMulMany_facts (be : BE) (n off ea eb : Nat) (ct : G) (t : K) (hn : n % 8 = 0)
-    (hea : ea ≤ ct.size) (heb : eb ≤ ct.size) (hb : 0 < ct.b2k) (hoff : cnvHi off ct.b2k ≤ ea + eb) :
+    (hea : ea ≤ ct.size) (heb : eb ≤ ct.size) (hb : 0 < ct.b2k) (hoff : cnvHi off ct.b2k ≤ ea + eb)
+    (hpw : PairwiseCovered be n ct.size (limbBoundWorst (ct.size + ct.size) ct.size ct.b2k ct.b2k) (min ct.size ct.size) ct.size ct.size) :
     ∀ l, Facts (treeCkksMulMany be n off ea eb ct t l) (2 * l * ct.bytes n + tbCkksMul be n ct t) := by
   intro l
-  have hm := ckksMul_facts be n off ea eb ct t hn hea heb hb hoff
+  have hm := ckksMul_facts be n off ea eb ct t hn hea heb hb hoff hpw
   induction l with
   | zero => simpa [treeCkksMulMany] using hm
   | succ l ih =>
@@ -468,14 +470,15 @@ theorem ckksMulMany_facts (be : BE) (n off ea eb : Nat) (ct : G) (t : K) (hn : n
     omega
 
 theorem ckksDotProductCt_facts (be : BE) (n off ea eb cnt : Nat) (ct : G) (t : K) (hn : n % 8 = 0)
-    (hea : ea ≤ ct.size) (heb : eb ≤ ct.size) (hb : 0 < ct.b2k) (hoff : cnvHi off ct.b2k ≤ ea + eb) :
+    (hea : ea ≤ ct.size) (heb : eb ≤ ct.size) (hb : 0 < ct.b2k) (hoff : cnvHi off ct.b2k ≤ ea + eb)
+    (hpw : PairwiseCovered be n ct.size (limbBoundWorst (ct.size + ct.size) ct.size ct.b2k ct.b2k) (min ct.size ct.size) ct.size ct.size) :
     Facts (treeCkksDotProductCt be n off ea eb cnt ct t) (tbCkksDotProductCt be n cnt ct t) := by
   unfold treeCkksDotProductCt tbCkksDotProductCt
   by_cases hc : cnt ≤ 1
-  · rw [if_pos hc, if_pos hc]; exact ckksMul_facts be n off ea eb ct t hn hea heb hb hoff
+  · rw [if_pos hc, if_pos hc]; exact ckksMul_facts be n off ea eb ct t hn hea heb hb hoff hpw
   · rw [if_neg hc, if_neg hc]
     have hr : Facts _ _ := relinearize_facts be n t.size ct t hn (Nat.le_refl _)
-    have hta := tensorApply_facts be n off ct ct ct.size ea eb hn hea heb hb hoff
+    have hta := tensorApply_facts be n off ct ct ct.size ea eb hn hea heb hb hoff hpw
     have h := Facts.takeMany (2 * cnt) _ (gbytes_mod64 hn ct)
       ((ckksShift_Facts n).alt (Facts.take _ (show tensorBytes n ct % 64 = 0 from vec_mod64 hn _ _) ((hta.loop cnt).alt hr)))
     refine h.mono ?_
